@@ -10,3 +10,7 @@ claim("C10", "Phase-graph reachability, initialized<=>spawn-time, spawn-queue co
 claim("C15", "Every provider block: recorded consensus set vs a tie-tolerant top-M predicate over staking state, engine-side fold of returned "
       "updates vs recorded set (never diverge, never exceed M), exact-diff check, staking views (iteration, total bonded, ratio) vs the set.",
       "online invariant monitor + engine-side fold of ValidatorUpdates", "2/C15")
+claim("C04", "Closed-form oracles (set size, no excluded eligible validator strictly outranks an included one, power-cap predicates incl. the "
+      "unachievable case) over (a) >=60k/1.5M generated vectors driven through the exported functions of the real keeper and (b) every capped "
+      "consumer set stored by the provider in the generated worlds.",
+      "runtime oracle over generated inputs to the real functions + online monitor of stored sets", "2/C04")
